@@ -10,7 +10,7 @@ from valjean.cosette.depgraph import DepGraph
 from . import runtime
 
 _MODS = None
-OUTCOMES = ('ok', 'raise', 'fail', 'none', 'notpair', 'badstatus', 'badupdate', 'triple', 'clobber', 'clobber-next', 'badnested')
+OUTCOMES = ('ok', 'raise', 'fail', 'none', 'notpair', 'badstatus', 'badupdate', 'triple', 'clobber', 'clobber-next', 'badnested', 'nonfinal', 'pending')
 FINAL = (TaskStatus.DONE, TaskStatus.FAILED, TaskStatus.SKIPPED)
 
 
@@ -66,6 +66,9 @@ class Probe(Task):
             return 42, TaskStatus.DONE
         if out == 'triple':
             return upd, TaskStatus.DONE, 0
+        if out in ('nonfinal', 'pending'):
+            # a genuine TaskStatus, but not one a finished task can have
+            return upd, (TaskStatus.WAITING if out == 'nonfinal' else TaskStatus.PENDING)
         if out == 'badnested':
             # a mapping all the way down, but it asks to merge a dictionary into a value that is not one (the start clock):
             # apply() fails half-way
